@@ -51,7 +51,7 @@ CLAIMED = {
         technique='CBMC function contracts (DFCC) on extracted C++ member functions, full-domain symbolic inputs, native replay on the real header',
         design='DESIGN.md §3 C08'),
     'C25': dict(
-        text='Partial (node-local). Proof, for every sorted node (up to 4096 int keys; up to 64 two-column keys compared lexicographically through the real comparator<T>; duplicates allowed) and every key, that the real '
+        text='Partial. (1) In-node search: proof, for every sorted node (up to 4096 int keys; up to 64 two-column keys compared lexicographically through the real comparator<T>; duplicates allowed) and every key, that the real '
              'BTreeUtil.h search strategies — linear_search and binary_search, each operator()/lower_bound/upper_bound — return the least position '
              'whose element is >= key (resp. > key; resp. a position holding the key or else the lower bound), stay within [a,b], write nothing '
              'and terminate (loop invariants + variants, unbounded iterations), and that comparator<int> is a correct three-way comparison. '
